@@ -132,6 +132,7 @@ impl PartiallySignedTransaction {
 //@ret r
 //@spec
 //@|     ensures bip370(self.global.tx_data.fallback_locktime, self.inputs@, r)
+//@require "enum Locktime < T : Ord > { Unconstrained , Minimum ( T ) , Disallowed , }"
 //@hoist "enum Locktime"
 //@at "for inp in" after
 //@| it:
